@@ -528,7 +528,7 @@ func (e *SpecEnv) evalCall(x *ast.CallExpr) Val {
 		if len(v.L) != 2 {
 			e.fail(x, "rtypemsg of a non-interface value")
 		}
-		isMsg := and(app("bvuge", v.L[1], bvLit(64, rtypeMsgBase)), app("bvult", v.L[1], bvLit(64, rtypeMsgBase+rvElemV)))
+		isMsg := and(eq(v.L[0], bvLit(64, uint64(vc.w.tags.tagNamed("extern:reflect.rtype")))), app("bvuge", v.L[1], bvLit(64, rtypeMsgBase)), app("bvult", v.L[1], bvLit(64, rtypeMsgBase+rvElemV)))
 		return Val{T: types.Typ[types.Int], L: []string{ite(isMsg, app("bvsub", v.L[1], bvLit(64, rtypeMsgBase)), allOnes64)}}
 	case "govcBinsize":
 		// number of bytes binary.Write emits for the dynamic type of x (0: not a fixed-size scalar)
